@@ -49,3 +49,95 @@ class ModelBuilder:
                   domain: Any = None, null: Any = None) -> AObj:
         return AObj("Attribute", name=name, parent=parent, domain=domain, default_value=default,
                     null_value=null)
+
+
+def frozen_list(items: list[Any]) -> Any:
+    from .absint import TaggedList
+    t = TaggedList(items)
+    t._frozen = True
+    return t
+
+
+def freeze_model(fm: AObj) -> None:
+    """Mark every object and container owned by the model as input-owned: a store into them
+    during formula evaluation raises AbsMutation."""
+    seen: set[int] = set()
+
+    def fz(o: Any) -> Any:
+        if isinstance(o, AObj):
+            if id(o) in seen:
+                return o
+            seen.add(id(o))
+            for k, v in list(o._f.items()):
+                if isinstance(v, list):
+                    o._f[k] = frozen_list([fz(x) for x in v])
+                elif isinstance(v, AObj):
+                    fz(v)
+            o._f["_frozen"] = True
+        return o
+    fz(fm)
+
+
+def snapshot(fm: AObj, skip: tuple[str, ...] = ()) -> Any:
+    """Structural snapshot of a model (for 'unchanged' comparisons)."""
+    seen: dict[int, int] = {}
+    skipped = ("_frozen", "_complete") + tuple(skip)
+
+    def sn(o: Any) -> Any:
+        if isinstance(o, AObj):
+            if id(o) in seen:
+                return ("ref", seen[id(o)])
+            seen[id(o)] = len(seen)
+            return (o._cls, tuple((k, sn(v)) for k, v in sorted(o._f.items())
+                                  if k not in skipped))
+        if isinstance(o, (list, tuple)):
+            return tuple(sn(x) for x in o)
+        if isinstance(o, (set, frozenset)):
+            return ("set", tuple(sorted(repr(sn(x)) for x in o)))
+        if isinstance(o, OrdInt):
+            return o.v
+        if isinstance(o, EnumVal):
+            return ("enum", o.cls, o.name)
+        return o
+    return sn(fm)
+
+
+def rich_model(mb: "ModelBuilder", ctcs: bool = True) -> AObj:
+    """A model realising every relation kind, several relations per parent, abstract features,
+    attributes and every constraint class."""
+    F = mb.feature
+    root = F("Root", is_abstract=True)
+    M, O = F("M", is_abstract=True), F("O")
+    x, y, z = F("x"), F("y"), F("z")
+    u, v = F("u"), F("v")
+    p, q = F("p"), F("q")
+    k1, k2, k3 = F("k1"), F("k2"), F("k3")
+    deep, deeper = F("deep"), F("deeper")
+    solo = F("solo")
+    mb.relation(root, [M], 1, 1)
+    mb.relation(root, [O], 0, 1)
+    mb.relation(root, [p, q], 0, 1)            # mutex
+    mb.relation(M, [x, y, z], 1, 3)            # or
+    mb.relation(M, [solo], 1, 1)               # mandatory next to a group
+    mb.relation(O, [u, v], 1, 1)               # alternative
+    mb.relation(x, [k1, k2, k3], 2, 3)         # cardinality
+    mb.relation(u, [deep], 0, 1)
+    mb.relation(deep, [deeper], 1, 1)
+    a = mb.attribute("cost", 3, x)
+    x._f["attributes"].append(a)
+    b = mb.attribute("label", "hi", deeper)
+    deeper._f["attributes"].append(b)
+    cs = []
+    if ctcs:
+        n, o_ = mb.node, mb.op
+        cs = [
+            mb.constraint("req", n(o_("REQUIRES"), n("x"), n("u"))),
+            mb.constraint("exc", n(o_("EXCLUDES"), n("p"), n("v"))),
+            mb.constraint("imp", n(o_("IMPLIES"), n("y"), n("solo"))),
+            mb.constraint("or", n(o_("OR"), n(o_("NOT"), n("z")), n(o_("NOT"), n("q")))),
+            mb.constraint("pseudo", n(o_("IMPLIES"), n("k1"), n(o_("AND"), n("k2"), n("O")))),
+            mb.constraint("strict", n(o_("OR"), n("x"), n(o_("OR"), n("y"), n("deep")))),
+            mb.constraint("notand", n(o_("NOT"), n(o_("AND"), n("u"), n("p")))),
+            mb.constraint("arith", n(o_("GREATER"), n(o_("ADD"), n("x"), n(1)), n(2))),
+        ]
+    return mb.model(root, cs)
